@@ -3,6 +3,8 @@
 //! invocations; plus in-process access to the checkfile parser (C13) and the
 //! special-file half of C11.
 
+#[cfg(not(feature = "full"))]
+use crate::lean::LeanHasher;
 use crate::exec::*;
 use crate::model::{hex, unhex, MMode};
 use crate::ops::{ctx_string, first_diff};
